@@ -34,6 +34,17 @@ var $flatten64 = x => {
     return x.$high * 4294967296 + x.$low;
 };
 
+// Converts a 64-bit integer to float32 with a single rounding. A value of more
+// than 53 bits would be rounded twice on the way through a float64, so the bits
+// which don't fit are folded into the lowest bit that does (round to odd) first.
+var $flatten64ToFloat32 = x => {
+    var low = x.$low;
+    if (x.$high >= 0x200000 || x.$high < -0x200000) {
+        low = ((low & 0xFFFFF800) | ((low & 0x7FF) !== 0 ? 0x800 : 0)) >>> 0;
+    }
+    return $fround(x.$high * 4294967296 + low);
+};
+
 var $shiftLeft64 = (x, y) => {
     if (y === 0) {
         return x;
